@@ -300,15 +300,32 @@ example :
       b₂.idx.index (isFreePar examplePoints) (0, .N), minx examplePoints b₂) = (6, 6, 18, 1, 0, [1, 2, 3]) := by
   decide
 
-/-- the project-equation dump is faithful: reading what `AdjInputData::write_xml` wrote gives the
-    adjustment input back (sparse rows with their column indices, covariance blocks, right-hand
-    side, `minx`), for every well-formed input (`WF`: the three mandatory sections present, block
-    headers consistent) and every number codec with `rd (fmt x) = x`.  Hence adjusting the dump with
-    class `Adj` is adjusting the same (A, b, C, S) as gama-g3 does; that the solution is then the same
-    is C01/C02. -/
-theorem C19_dump_roundtrip {K S : Type} (c : Codec K S) (hc : c.Lawful) (d : AdjData K) (hd : WF d) :
+/-- the project-equation dump is faithful **up to the digits the printer keeps**: for every number format with
+    `rd (fmt x) = q x` (`q` = rounding to the printed digits), `fmt (q x) = fmt x`, integers exact (`Codec.Printer`),
+    and every well-formed input (`WF`: the three mandatory sections present, block headers consistent), reading what
+    `AdjInputData::write_xml` wrote gives the adjustment input with every number replaced by its printed value
+    (sparse rows with their column indices, covariance blocks, right-hand side, `minx` unchanged in structure),
+    a second dump of that is identical to the first, and the re-read data is a fixed point of dump → read.
+    Hence adjusting the dump with class `Adj` is adjusting the rounded (A, b, C, S); that the solution is then
+    the same up to that rounding is C01/C02 (continuity of the solution is not stated here). -/
+theorem C19_dump_roundtrip {K S : Type} (c : Codec K S) {q : K → K} (hc : c.Printer q) (d : AdjData K) (hd : WF d) :
+    readAdj c (writeAdj c d) = .ok (d.mapQ q) ∧
+    writeAdj c (d.mapQ q) = writeAdj c d ∧
+    readAdj c (writeAdj c (d.mapQ q)) = .ok (d.mapQ q) := by
+  refine ⟨readAdj_writeAdj_printer c hc d hd, writeAdj_mapQ c hc d, ?_⟩
+  rw [writeAdj_mapQ c hc d]
+  exact readAdj_writeAdj_printer c hc d hd
+
+/-- the exact case (`q = id`, e.g. `precision(17)` on IEEE doubles, which the harness uses): `readAdj ∘ writeAdj = id` -/
+theorem C19_dump_roundtrip_exact {K S : Type} (c : Codec K S) (hc : c.Lawful) (d : AdjData K) (hd : WF d) :
     readAdj c (writeAdj c d) = .ok d :=
   readAdj_writeAdj c hc d hd
+
+/-- non-vacuity with a genuinely lossy printer: numbers in units of 10⁻⁴ printed with three decimals (`decCodec`,
+    decimal numerals through `Nat.repr` / `String.toNat?`): 10 004 is printed as "1001" and read back as 10 010 -/
+example : decCodec.Printer decQ ∧ WF exampleData ∧ decQ 10004 = 10010 ∧ decCodec.fmtF 10004 = "1001" := by
+  refine ⟨decCodec_printer, ⟨rfl, ⟨_, rfl, ?_⟩, by decide⟩, by decide, by decide⟩
+  decide
 
 /-- non-vacuity: a 3×4 matrix with an empty row, a banded and a 1×1 block, `minx = [2, 4]` -/
 example : WF exampleData ∧ exampleCodec.Lawful ∧ (writeAdj exampleCodec exampleData).length = 107 := by
@@ -349,27 +366,32 @@ example :
     .ok [⟨.dist, (), [(.fromDh, 0), (.toDh, 5)]⟩, ⟨.vector, (), [(.fromDh, 0), (.toDh, 0)]⟩] := by
   rfl
 
-/-- a consequence of the handler as coded (`angle->left_dh = optional(g3->to_dh); angle->right_dh =
-    optional(g3->to_dh);`, while `<left-dh>`, `<right-dh>` store into `g3->left_dh`, `g3->right_dh`, which
-    nobody reads): the target heights given in an `<angle>` record are ignored — both are always 0.
-    Record-local, but not what the input says (finding G4 of the report). -/
-theorem C19_parser_angle_target_heights_ignored {K α : Type} [Zero K] (a : α) (opts : List (Field × K))
-    (h : wellFormed Gama.Gen.G3ParserSites.sites (⟨.angle, a, opts⟩ : Rec α K) = true) :
-    ∃ v, (build Gama.Gen.G3ParserSites.sites (⟨.angle, a, opts⟩ : Rec α K)).dh =
-      [(.fromDh, v), (.leftDh, 0), (.rightDh, 0)] := by
-  have h0 : setOpts (fun _ => (0 : K)) opts .toDh = 0 := by
-    rw [setOpts_untouched]
-    intro o ho e
-    simp only [wellFormed, List.all_eq_true] at h
-    have := h o ho
-    rw [e] at this
-    revert this
-    decide
-  refine ⟨setOpts (fun _ => (0 : K)) opts .fromDh, ?_⟩
-  simp only [build, Gama.Gen.G3ParserSites.sites, Gama.Gen.G3ParserSites.consumes, consume]
-  simp [upd, h0]
+/-- the target heights of an `<angle>` record reach the observation (923ba08; before, the handler read the
+    unrelated pending `to_dh` twice and `left_dh = right_dh = 0` always — finding G7 of the report): the members
+    `from_dh, left_dh, right_dh` are what the record's own `<from-dh>`, `<left-dh>`, `<right-dh>` children left in
+    the (initially zero) pending fields — `setOpts`: the last child of that name, 0 if there is none.
+    Record locality for these fields is `C19_parser_record_local` (the generated `sites` now list
+    `left_dh`, `right_dh` among the fields cleared by `init_g3` and read through `optional(…)`). -/
+theorem C19_parser_angle_target_heights {K α : Type} [Zero K] (a : α) (opts : List (Field × K)) :
+    (build Gama.Gen.G3ParserSites.sites (⟨.angle, a, opts⟩ : Rec α K)).dh =
+      [(.fromDh, setOpts (fun _ => (0 : K)) opts .fromDh), (.leftDh, setOpts (fun _ => (0 : K)) opts .leftDh),
+       (.rightDh, setOpts (fun _ => (0 : K)) opts .rightDh)] := by
+  simp [build, Gama.Gen.G3ParserSites.sites, Gama.Gen.G3ParserSites.consumes, consume, upd]
 
-example : wellFormed Gama.Gen.G3ParserSites.sites (⟨.angle, (), [(.leftDh, (3 : Int))]⟩ : Rec Unit Int) = true := by
-  decide
+/-- a child that occurs once, last, is the value read -/
+theorem C19_parser_child_value {K : Type} [Zero K] (p : Pending K) (o : List (Field × K)) (f : Field) (v : K) :
+    setOpts p (o ++ [(f, v)]) f = v := by
+  induction o generalizing p with
+  | nil => simp [setOpts, upd]
+  | cons a t ih => obtain ⟨g, w⟩ := a; simpa [setOpts] using ih (upd p g w)
+
+/-- an angle with `<left-dh>3</left-dh><right-dh>4</right-dh>` followed by an angle without children:
+    3 and 4 reach the first, nothing reaches the second (junk 7 in the members before `init_g3`) -/
+example :
+    parse (K := Int) (α := Unit) Gama.Gen.G3ParserSites.sites (fun _ => 7)
+      [⟨.angle, (), [(.leftDh, 3), (.rightDh, 4)]⟩, ⟨.angle, (), []⟩] =
+    .ok [⟨.angle, (), [(.fromDh, 0), (.leftDh, 3), (.rightDh, 4)]⟩,
+         ⟨.angle, (), [(.fromDh, 0), (.leftDh, 0), (.rightDh, 0)]⟩] := by
+  rfl
 
 end Gama.Props.C19
